@@ -270,14 +270,24 @@ pub fn ord_values(ty: Ty, len: std::ops::Range<usize>, wide: bool) -> BoxedStrat
     match ty {
         Ty::N64 => {
             if wide {
-                proptest::collection::vec(f64_value(true).prop_map(f64_abs), len).boxed()
+                prop_oneof![
+                    3 => proptest::collection::vec(moderate_f64().prop_map(f64_abs), len.clone()),
+                    2 => proptest::collection::vec(f64_value(false).prop_map(f64_abs), len.clone()),
+                    1 => proptest::collection::vec(f64_value(true).prop_map(f64_abs), len),
+                ]
+                .boxed()
             } else {
                 proptest::collection::vec(moderate_f64().prop_map(f64_abs), len).boxed()
             }
         }
         Ty::N32 => {
             if wide {
-                proptest::collection::vec(f32_value(true).prop_map(f32_abs), len).boxed()
+                prop_oneof![
+                    3 => proptest::collection::vec(moderate_f32().prop_map(f32_abs), len.clone()),
+                    2 => proptest::collection::vec(f32_value(false).prop_map(f32_abs), len.clone()),
+                    1 => proptest::collection::vec(f32_value(true).prop_map(f32_abs), len),
+                ]
+                .boxed()
             } else {
                 proptest::collection::vec(moderate_f32().prop_map(f32_abs), len).boxed()
             }
